@@ -251,6 +251,26 @@ NEEDS = {
     "C12-7A": "HeavyHitters.update(dict) holding two distinct long keys that share their first max_key_len bytes (dict re-keyed by the truncated key)",
     "C13-7A": "default threshold on a nearly empty wide sketch (0 < phi*n_added() < 1): resolved twice, becomes floor(phi*n^2)",
     "C16-7A": "log8/log16 owner with a non-default max_count, view made by attach_shared_memory (parameter whitelist forgets max_count)",
+    "C01-8A": "numpy in-place merge whose overflow test compares against `other.cms` AFTER the add: s.merge(s) (or owner.merge(attached view)) with a counter >= 2^31",
+    "C02-8A": "memoised query() invalidated by a 'register raised' flag that add_ngram takes from the LAST window only: query, add_ngram whose last window is a no-op, query",
+    "C03-8A": "add_ngram / update_ngram with ngram > max_key_len on a record longer than max_key_len (ngram clamped before shingling: windows that were never added are counted)",
+    "C04-8A": "merge fast path treats key_lens == 0 as 'empty cell': the empty key b'' heavy in a cell of either merge operand",
+    "C05-8A": "log sketches, bulk add (v > 1) on a key whose rows are not tied: only counters equal to the old minimum are raised",
+    "C06-8A": "running-product probability in _log_counter: inexact at the reserved boundary after a long bulk add, inf for log16 with num_reserved >= ~64 000",
+    "C07-8A": "zero registers left AND raw estimate above 5m (n between 5m and m ln m, p >= 13): falls back to linear counting",
+    "C08-8A": "a worker that received items returning records but adding no keys: its sketch is dropped from the merge tree as 'empty' (n_records lost)",
+    "C09-8A": "merge(other) with other.n_added() == 0 but n_records() > 0 returns before the bookkeeping is summed (all three classes)",
+    "C10-8A": "HeavyHitters.load(shared_memory=True): n_added_records rebound outside the block; only an attached view sees it (0 adds, empty query)",
+    "C11-8A": "fasthash64 short-key path for 4-7 byte keys reads int32 words: a byte >= 0x80 at index 3 or at the end sign-extends",
+    "C12-8A": "CountMinLinear add_ngram with len(key) > n while a window's counter is saturated at 2^32-1: n_added() grows by the number of windows, not by what was applied",
+    "C13-8A": "default phi, a width whose float reciprocal rounds down (49, 98, 103, ...), n_added() an exact multiple of the width: integer n//width threshold is one above floor(phi*n)",
+    "C14-8A": "double hashing (h1 + row*h2) % width from one 64-bit hash: keys colliding in two rows collide in all; row pairs correlated at even widths",
+    "C15-8A": "log sketches compared by derived `base` instead of max_count: max_count x vs x+1 with x >= 2^40 (log16) give bit-identical bases and merge",
+    "C16-8A": "np.require(...'A') copies the attached n_added_records when the table's byte size is not a multiple of 8: view keeps private counters",
+    "C17-8A": "no zero register and raw estimate in (5m, last table knot] (0.3 to 77 wide): bias still subtracted",
+    "C18-8A": "log merge fast path `max(self)+max(other) <= num_reserved` computed in uint8/uint16: a saturated cell + a small cell wraps",
+    "C19-8A": "worker dies with a POSITIVE exit status (os._exit(1)): the monitor now reacts to negative codes only",
+    "C20-8A": "count-min files carry cms_type in the zip comment; a cut inside the trailing comment (last 22-24 bytes) still loads",
     "C19-7A": "the dying worker is worker 00 (`if failed_worker:` is falsy for index 0)",
 }
 
